@@ -715,22 +715,30 @@ def run_impl(w, ops, viol, fsf=False):
                     if arr is not None and ph.dynamical_matrix is not None:
                         fr = w.fresh(ph.force_constants, ph.nac_params, ph.masses, False, fsf, kind=dk, opt=last_opt.get(dk, 0))[0]
                         if not close(arr, fr, 1e-6):
+                            stored_read = what not in DERIVED                      # ph.get_*_dict() of an object made earlier
+                            from_stored_mesh = dk in ("tp", "dos") and not stored_read   # run_thermal_properties / run_total_dos use the stored mesh
+                            mesh_current = from_stored_mesh and close(
+                                read_derived(ph, "mesh"), w.fresh(ph.force_constants, ph.nac_params, ph.masses, False, fsf, kind="mesh")[0], 1e-6)
                             if tainted:
                                 viol("Phonopy.run_qpoints", "stale-after-aliased-mutation",
                                      "after the caller mutated an array the object holds by reference, %s differs from a fresh object" % dk, si)
+                            elif stored_read or (from_stored_mesh and not mesh_current):
+                                # the recorded API behaviour (whatever the constructor options): result objects are snapshots
+                                viol("Phonopy result objects", "stale-derived-object",
+                                     "%s: the stored %s object differs from that of a fresh object given the current force constants, NAC "
+                                     "parameters and masses (no setter resets result objects; run_thermal_properties / run_total_dos use the stored mesh)"
+                                     % (("ph.run_%s()" % dk) if what in DERIVED else ("stored %s" % dk), dk), si)
                             elif fsf is True:
-                                viol("Phonopy.run_qpoints", "frequency-scale-factor-compounds", "%s differs from a fresh object constructed the same way" % dk, si)
-                            elif dk in ("tp", "dos") and what in DERIVED and close(
-                                    read_derived(ph, "mesh"), w.fresh(ph.force_constants, ph.nac_params, ph.masses, False, fsf, kind="mesh")[0], 1e-6):
+                                viol("Phonopy.run_qpoints", "frequency-scale-factor-compounds", "%s, made now from the current state, differs from a fresh object constructed the same way" % dk, si)
+                            elif from_stored_mesh:
                                 # the stored mesh IS current: the answer is wrong for another reason than a stale mesh
                                 viol("Phonopy.run_%s" % ("thermal_properties" if dk == "tp" else "total_dos"), "wrong-result-on-current-mesh",
                                      "run_%s(%r) on an up-to-date mesh differs from a fresh object asked the same question (after earlier calls with other options)"
                                      % ("thermal_properties" if dk == "tp" else "total_dos", (TP_OPTS if dk == "tp" else DOS_OPTS)[last_opt.get(dk, 0)]), si)
                             else:
-                                viol("Phonopy result objects", "stale-derived-object",
-                                     "%s: the stored %s object differs from that of a fresh object given the current force constants, NAC "
-                                     "parameters and masses (no setter resets result objects; run_thermal_properties / run_total_dos use the stored mesh)"
-                                     % (("ph.run_%s()" % dk) if what in DERIVED else ("stored %s" % dk), dk), si)
+                                # run_mesh / run_band_structure compute now, from the current dynamical matrix
+                                viol("Phonopy.run_%s" % ("mesh" if dk == "mesh" else "band_structure"), "stale-state",
+                                     "run_%s() differs from that of a freshly constructed object with the same parameters" % ("mesh" if dk == "mesh" else "band_structure"), si)
                 elif what == "fc":
                     obj, kind = ph.force_constants, "fc"
                     out = ("ref", obj)
